@@ -114,6 +114,10 @@ structure Cfg where
       `FIN_WAIT2`) is also swept by `check_retx`, so it is aborted — and then reaped — after
       `retx_threshold · (retx_max + 1)` silent egress passes (orphan timeout). -/
   fixOrphanTimeout : Bool := false
+  /-- F-C06-6 repair: an abort (retransmit exhaustion or RST) in `LastAck` / `Closing` — both FINs
+      exchanged, only the ACK of ours missing — enters `Closed` silently (RFC 793): no error flag,
+      the receive buffer stays readable. -/
+  fixQuietClose : Bool := false
   deriving DecidableEq, Repr, Inhabited
 
 /-- `advertised_window` (tcp.rs:1335). -/
